@@ -40,6 +40,7 @@ func c04Healthy(r *rng, id string) {
 			}
 		}
 	}
+	mon := cl.startMonitor()
 	failed := cl.joinAll(300 * time.Millisecond)
 	// operations over 40 virtual seconds
 	horizon := 40 * time.Second
@@ -130,6 +131,7 @@ func c04Healthy(r *rng, id string) {
 			conv = 0
 		}
 	}
+	inv := mon.verdict(cl.nodes)
 	cl.shutdownAll()
 	bs := "-"
 	if len(bad) > 0 {
@@ -138,8 +140,8 @@ func c04Healthy(r *rng, id string) {
 		}
 		bs = strings.Join(bad, ",")
 	}
-	emit("C04 sim id=%s n=%d indirect=%d tcp=%d latmax=%d joinfail=%d ops=%d leavers=%d sent=%d converged=%d bad=%s",
-		id, n, c.indirect, b2i(c.tcpPings), cl.net.latMax.Milliseconds(), failed, len(ops), len(leavers), cl.net.sent, conv, bs)
+	emit("C04 sim id=%s n=%d indirect=%d tcp=%d latmax=%d joinfail=%d ops=%d leavers=%d sent=%d converged=%d inv=%s claims=%d bad=%s",
+		id, n, c.indirect, b2i(c.tcpPings), cl.net.latMax.Milliseconds(), failed, len(ops), len(leavers), cl.net.sent, conv, inv, mon.total, bs)
 }
 
 func TestC04(t *testing.T) {
